@@ -7,6 +7,7 @@ import (
 	"github.com/brimdata/super/internal/verif"
 	"github.com/brimdata/super/order"
 	"github.com/brimdata/super/pkg/nano"
+	"github.com/brimdata/super/zcode"
 )
 
 // ---------------------------------------------------------------------------
@@ -31,6 +32,17 @@ const (
 // the quick tier uses one or two representatives of every class the comparator
 // distinguishes (unsigned, signed, float, bool, other primitive, null type)
 var vC06QuickKinds = []int{vC06Uint64, vC06Int64, vC06Time, vC06Float64, vC06Bool, vC06String, vC06Null}
+
+// kinds for the three-value transitivity harness; the comparator looks at
+// IsNull before the type, so one null kind stands for nulls of every type
+// (typed nulls are covered pairwise by O1a)
+var (
+	vC06TransQuick    = []int{vC06Uint64, vC06Int64, vC06Float64, vC06Bool, vC06String, vC06Null}
+	vC06MixedQuick    = []int{vC06Int64, vC06Float64}
+	vC06MixedThorough = []int{vC06Uint64, vC06Int64, vC06Float32, vC06Float64} // antisymmetry
+	vC06MixedTransTh  = []int{vC06Uint64, vC06Int64, vC06Float64}              // transitivity
+	vC06TransThorough = []int{vC06Uint8, vC06Uint64, vC06Int64, vC06Duration, vC06Time, vC06Float32, vC06Float64, vC06Bool, vC06String, vC06Null}
+)
 
 type vC06Val struct {
 	kind int
@@ -69,14 +81,14 @@ func vC06Type(kind int) zed.Type {
 }
 
 // vC06Sym returns a symbolic value of the given kind; typed kinds may be null.
-func vC06Sym(name string, kind int) vC06Val {
+func vC06Sym(name string, kind int, typedNulls bool) vC06Val {
 	r := vC06Val{kind: kind}
 	if kind == vC06Null {
 		r.null = true
 		r.val = zed.Null
 		return r
 	}
-	if verif.Bool(name + ".null") {
+	if typedNulls && verif.Bool(name+".null") {
 		r.null = true
 		r.val = zed.NewValue(vC06Type(kind), nil)
 		return r
@@ -120,47 +132,49 @@ func vC06Sym(name string, kind int) vC06Val {
 	return r
 }
 
-func vC06Pick(name string) vC06Val {
+func vC06Pick(name string, typedNulls bool) vC06Val {
 	if verif.Thorough() {
-		return vC06Sym(name, verif.Choose(name+".kind", vC06NKinds))
+		return vC06Sym(name, verif.Choose(name+".kind", vC06NKinds), typedNulls)
 	}
-	return vC06Sym(name, vC06QuickKinds[verif.Choose(name+".kind", len(vC06QuickKinds))])
+	return vC06Sym(name, vC06QuickKinds[verif.Choose(name+".kind", len(vC06QuickKinds))], typedNulls)
 }
 
-// bigInt: a non-null integer whose magnitude exceeds 2^53, i.e. one that
-// float64() may round.
-func (v vC06Val) bigInt() bool {
-	if v.null {
-		return false
+// bigBits is nonzero iff v is a non-null integer whose magnitude exceeds 2^53,
+// i.e. one that float64() may round.  Branch-free on purpose: the region of
+// the known finding is then decided by one fork instead of six.
+func (v vC06Val) bigBits() uint64 {
+	if v.null || !(v.isUint || v.isInt) {
+		return 0
 	}
-	if v.isUint {
-		return v.u > 1<<53
-	}
+	m := v.u
 	if v.isInt {
-		return v.i > 1<<53 || v.i < -(1<<53)
+		s := v.i >> 63
+		m = uint64((v.i ^ s) - s) // |i| (MinInt64 -> 2^63)
 	}
-	return false
+	t := m >> 53
+	low := m & (1<<53 - 1)
+	return (t >> 1) | (t & ((low | -low) >> 63))
 }
 
-func vC06Sgn(c int) int {
-	if c < 0 {
-		return -1
+func vC06Mixed(vs ...vC06Val) bool {
+	anyFloat, anyInt := false, false
+	for _, v := range vs {
+		switch v.kind {
+		case vC06Float32, vC06Float64:
+			anyFloat = true
+		case vC06Uint8, vC06Uint64, vC06Int8, vC06Int64, vC06Duration, vC06Time:
+			anyInt = true
+		}
 	}
-	if c > 0 {
-		return 1
-	}
-	return 0
+	return anyFloat && anyInt
 }
 
-// verif:desc C06-O1a expr.Comparator.Compare/compareValues/compareNumbers/zed.CompareTypes on two primitive values: reflexive (cmp(a,a)=0), antisymmetric (sgn cmp(a,b) = -sgn cmp(b,a)), and never panics; ascending and descending, nulls first and last.
-// verif:bounds a,b: kind in {uint64,int64,time,float64,bool,string(1 byte),null-type} (thorough: also uint8,int8,duration,float32), each typed kind null or not, any 64-bit payload / any float bit pattern (NaN, Inf, -0 included); order and nullsMax symbolic
-// verif:outside ip, net, type values, containers, records, unions, named types, errors; non-native (byte-encoded) primitive values
-func VerifH_C06_O1_antisym() {
-	a, b := vC06Pick("a"), vC06Pick("b")
+func vC06Antisym(a, b vC06Val) {
 	cmp := NewValueCompareFn(order.Which(verif.Bool("desc")), verif.Bool("nullsMax"))
 	ab := cmp(a.val, b.val)
 	ba := cmp(b.val, a.val)
-	verif.Assert(vC06Sgn(ab) == -vC06Sgn(ba), "antisymmetric")
+	verif.Assert((ab < 0) == (ba > 0), "antisymmetric")
+	verif.Assert((ab == 0) == (ba == 0), "antisymmetric-eq")
 	verif.Assert(cmp(a.val, a.val) == 0, "reflexive")
 	verif.Observe("ab", ab)
 	verif.Observe("ba", ba)
@@ -176,23 +190,308 @@ func VerifH_C06_O1_antisym() {
 	verif.Reach("end")
 }
 
-// verif:desc C06-O1b transitivity of expr.Comparator.Compare on primitive values: cmp(a,b)<=0 and cmp(b,c)<=0 imply cmp(a,c)<=0.  The assertion id is split: `transitive/bigint-vs-float` when the triple mixes a float with an integer of magnitude > 2^53 (the integer is rounded by float64()), `transitive` everywhere else.
-// verif:bounds a,b,c as in O1a (quick: 7 kinds, thorough: 11 kinds); ascending; nullsMax symbolic
-// verif:outside as O1a; descending order (Compare only swaps the operands, covered by O1a)
-func VerifH_C06_O1_transitive() {
-	a, b, c := vC06Pick("a"), vC06Pick("b"), vC06Pick("c")
+// verif:desc C06-O1a expr.Comparator.Compare/compareValues/compareNumbers/zed.CompareTypes on two primitive values: reflexive (cmp(a,a)=0), antisymmetric (sgn cmp(a,b) = -sgn cmp(b,a)), and never panics; ascending and descending, nulls first and last.
+// verif:bounds a,b: kind in {uint64,int64,time,float64,bool,string(1 byte),null-type} (thorough: also uint8,int8,duration,float32), each typed kind null or not, any 64-bit payload / any float bit pattern (NaN, Inf, -0 included); order and nullsMax symbolic; pairs of one float and one integer kind are left to O1a-mixed
+// verif:outside ip, net, type values, containers, records, unions, named types, errors; non-native (byte-encoded) primitive values
+func VerifH_C06_O1_antisym() {
+	a, b := vC06Pick("a", true), vC06Pick("b", true)
+	if vC06Mixed(a, b) {
+		return
+	}
+	vC06Antisym(a, b)
+}
+
+// verif:desc C06-O1a-mixed as O1a for one float and one integer operand (compareNumbers converts the integer with float64()); decided with cvc5 because z3 4.8 does not finish 64-bit int->float conversions within the query timeout.
+// verif:bounds a,b: one of kind float64 and one of kind int64 (thorough: also float32, uint64), each null or not, any 64-bit payload / float bit pattern; order and nullsMax symbolic
+// verif:outside as O1a
+// verif:solver cvc5
+func VerifH_C06_O1_antisym_mixed() {
+	kinds := vC06MixedQuick
+	if verif.Thorough() {
+		kinds = vC06MixedThorough
+	}
+	a := vC06Sym("a", kinds[verif.Choose("a.kind", len(kinds))], true)
+	b := vC06Sym("b", kinds[verif.Choose("b.kind", len(kinds))], true)
+	if !vC06Mixed(a, b) {
+		return
+	}
+	vC06Antisym(a, b)
+}
+
+func vC06Transitive(a, b, c vC06Val) {
+	// decided first, while the path condition is still free of float terms
+	big := (a.bigBits() | b.bigBits() | c.bigBits()) != 0
+	if big {
+		verif.Reach("bigint")
+	}
 	cmp := NewValueCompareFn(order.Asc, verif.Bool("nullsMax"))
 	verif.Assume(cmp(a.val, b.val) <= 0)
 	verif.Assume(cmp(b.val, c.val) <= 0)
 	ac := cmp(a.val, c.val)
 	verif.Observe("ac", ac)
-	if ac > 0 {
-		anyFloat := (a.isFloat && !a.null) || (b.isFloat && !b.null) || (c.isFloat && !c.null)
-		if anyFloat && (a.bigInt() || b.bigInt() || c.bigInt()) {
-			verif.Assert(false, "transitive/bigint-vs-float")
+	if vC06Mixed(a, b, c) {
+		// the region is computed before the assertion so that each id is one query
+		if big {
+			verif.Assert(ac <= 0, "transitive/bigint-vs-float")
+			verif.Reach("bigint-vs-float")
 		} else {
-			verif.Assert(false, "transitive")
+			verif.Assert(ac <= 0, "transitive")
+			verif.Reach("smallint-vs-float")
+		}
+	} else {
+		verif.Assert(ac <= 0, "transitive")
+	}
+	verif.Reach("end")
+}
+
+// verif:desc C06-O1b transitivity of expr.Comparator.Compare on primitive values: cmp(a,b)<=0 and cmp(b,c)<=0 imply cmp(a,c)<=0.
+// verif:bounds a,b,c: kind in {uint64,int64,float64,bool,string(1 byte),null} (thorough: also uint8,duration,time,float32), any 64-bit payload / float bit pattern; ascending; nullsMax symbolic; triples containing both a float and an integer kind are left to O1b-mixed
+// verif:outside as O1a; descending order (Compare only swaps the operands, covered by O1a)
+func VerifH_C06_O1_transitive() {
+	kinds := vC06TransQuick
+	if verif.Thorough() {
+		kinds = vC06TransThorough
+	}
+	a := vC06Sym("a", kinds[verif.Choose("a.kind", len(kinds))], false)
+	b := vC06Sym("b", kinds[verif.Choose("b.kind", len(kinds))], false)
+	c := vC06Sym("c", kinds[verif.Choose("c.kind", len(kinds))], false)
+	if vC06Mixed(a, b, c) {
+		return
+	}
+	vC06Transitive(a, b, c)
+}
+
+// verif:desc C06-O1b-mixed transitivity of Comparator.Compare on triples mixing floats and integers.  The assertion id is split: `transitive/bigint-vs-float` when the triple contains an integer of magnitude > 2^53 (float64() rounds it), `transitive` everywhere else.
+// verif:bounds a,b,c: kind in {int64,float64} (thorough: also uint64) with at least one float and one integer, non-null, any 64-bit payload / float bit pattern; ascending; nullsMax symbolic
+// verif:outside as O1a
+// verif:solver cvc5
+func VerifH_C06_O1_transitive_mixed() {
+	kinds := vC06MixedQuick
+	if verif.Thorough() {
+		kinds = vC06MixedTransTh
+	}
+	a := vC06Sym("a", kinds[verif.Choose("a.kind", len(kinds))], false)
+	b := vC06Sym("b", kinds[verif.Choose("b.kind", len(kinds))], false)
+	c := vC06Sym("c", kinds[verif.Choose("c.kind", len(kinds))], false)
+	if !vC06Mixed(a, b, c) {
+		return
+	}
+	vC06Transitive(a, b, c)
+}
+
+// ---------------------------------------------------------------------------
+// O2: bulk sort path
+// ---------------------------------------------------------------------------
+
+// kinds for the bulk-sort harnesses: ids <= IDTime take the native int64 path
+// of sortStableIndices; one float64 or string among the values disables it.
+var (
+	vC06SortNative = []int{vC06Uint8, vC06Uint64, vC06Int64, vC06Time}
+	vC06SortAll    = []int{vC06Uint8, vC06Uint64, vC06Int64, vC06Time, vC06Float64, vC06String}
+)
+
+// vC06CheckSorted asserts that idx is a permutation of 0..n-1 that is
+// non-decreasing under c.Compare and keeps equal values in input order.
+func vC06CheckSorted(c *Comparator, vals []zed.Value, idx []uint32) {
+	n := len(vals)
+	verif.Assert(len(idx) == n, "indices-length")
+	seen := make([]bool, n)
+	for _, k := range idx {
+		verif.Assert(int(k) < n && !seen[k], "indices-permutation")
+		seen[k] = true
+	}
+	for i := 0; i+1 < n; i++ {
+		v := c.Compare(vals[idx[i]], vals[idx[i+1]])
+		verif.Assert(v <= 0, "bulk-sorted")
+		if v == 0 {
+			verif.Assert(idx[i] < idx[i+1], "bulk-stable")
+			verif.Reach("tie")
 		}
 	}
+}
+
+// verif:desc C06-O2 Comparator.sortStableIndices (the bulk path of sort and spill: native int64 keys with nulls and uint64 > MaxInt64 clamped, ties re-decided by compareValues) on two values agrees with the pair path Comparator.Compare: the permutation is non-decreasing under Compare and stable.
+// verif:bounds 2 values; kinds {uint8,uint64,int64,time} (native path) or one/both of {float64,string(1 byte)} (generic path), each null or not, any payload; 1 key (this), asc/desc and nullsMax symbolic
+// verif:outside more than one sort key; record fields as keys; byte-encoded values; n > 2 (see O2-three)
+func VerifH_C06_O2_sortindices_two() {
+	nullsMax := verif.Bool("nullsMax")
+	c := NewComparator(nullsMax, SortEvaluator{&This{}, order.Which(verif.Bool("desc"))})
+	a := vC06Sym("a", vC06SortAll[verif.Choose("a.kind", len(vC06SortAll))], true)
+	b := vC06Sym("b", vC06SortAll[verif.Choose("b.kind", len(vC06SortAll))], true)
+	if vC06Mixed(a, b) {
+		// int vs float on the generic path is compareValues again (O1a-mixed)
+		return
+	}
+	vals := []zed.Value{a.val, b.val}
+	idx := c.sortStableIndices(vals)
+	vC06CheckSorted(c, vals, idx)
+	if !a.null && !b.null && a.isUint && b.isUint && a.u > 1<<63 && b.u > 1<<63 && a.u != b.u {
+		verif.Reach("both-clamped")
+	}
+	if a.null != b.null {
+		if (a.isInt && (a.i == -1<<63 || a.i == 1<<63-1)) || (b.isInt && (b.i == -1<<63 || b.i == 1<<63-1)) {
+			verif.Reach("null-vs-extreme-int")
+		}
+	}
+	verif.Observe("idx0", int(idx[0]))
+	verif.Reach("end")
+}
+
+// verif:desc C06-O2-three sortStableIndices and SortStable on three values of the native path: permutation, non-decreasing under Compare, stable; SortStable applies exactly that permutation in place.
+// verif:bounds 3 values; kinds {uint64,int64}, each null or not, any payload; 1 key, asc/desc and nullsMax symbolic; sort.SliceStable is the engine's stable insertion sort driving the real less closure
+// verif:outside as O2
+// verif:tier thorough
+func VerifH_C06_O2_sortindices_three() {
+	nullsMax := verif.Bool("nullsMax")
+	c := NewComparator(nullsMax, SortEvaluator{&This{}, order.Which(verif.Bool("desc"))})
+	kinds := []int{vC06Uint64, vC06Int64}
+	vals := make([]zed.Value, 3)
+	for i, name := range []string{"a", "b", "c"} {
+		vals[i] = vC06Sym(name, kinds[verif.Choose(name+".kind", len(kinds))], true).val
+	}
+	idx := c.sortStableIndices(vals)
+	vC06CheckSorted(c, vals, idx)
+	sorted := append([]zed.Value(nil), vals...)
+	c.SortStable(sorted)
+	for i := range sorted {
+		verif.Assert(sorted[i] == vals[idx[i]], "sortstable-applies-indices")
+	}
+	verif.Observe("idx0", int(idx[0]))
+	verif.Observe("idx1", int(idx[1]))
+	verif.Reach("end")
+}
+
+// ---------------------------------------------------------------------------
+// O3: strings, bytes, arrays
+// ---------------------------------------------------------------------------
+
+// vC06Lex is the specification: lexicographic comparison of byte strings.
+func vC06Lex(a, b []byte) int {
+	for i := 0; i < len(a) && i < len(b); i++ {
+		if a[i] != b[i] {
+			if a[i] < b[i] {
+				return -1
+			}
+			return 1
+		}
+	}
+	if len(a) < len(b) {
+		return -1
+	}
+	if len(a) > len(b) {
+		return 1
+	}
+	return 0
+}
+
+func vC06Sgn(c int) int {
+	if c < 0 {
+		return -1
+	}
+	if c > 0 {
+		return 1
+	}
+	return 0
+}
+
+// verif:desc C06-O3 compareValues on two strings / two bytes values equals the byte-wise lexicographic order (shorter prefix first); string vs bytes is ordered by type id.
+// verif:bounds strings of 0..2 symbolic bytes, bytes values of 1..2 symbolic bytes; nullsMax symbolic (irrelevant: no nulls here), ascending
+// verif:outside longer strings (bytes.Compare / string < are engine primitives on cells), Unicode collation (none is specified), empty bytes values
+func VerifH_C06_O3_strings_bytes() {
+	cmp := NewValueCompareFn(order.Asc, verif.Bool("nullsMax"))
+	var a, b []byte
+	var va, vb zed.Value
+	ka, kb := verif.Choose("a.kind", 2), verif.Choose("b.kind", 2)
+	if ka == 0 {
+		a = verif.Bytes("a", 2)
+		va = zed.NewString(string(a))
+	} else {
+		a = verif.BytesN("a", 1+verif.Choose("a.len1", 2))
+		va = zed.NewBytes(a)
+	}
+	if kb == 0 {
+		b = verif.Bytes("b", 2)
+		vb = zed.NewString(string(b))
+	} else {
+		b = verif.BytesN("b", 1+verif.Choose("b.len1", 2))
+		vb = zed.NewBytes(b)
+	}
+	got := cmp(va, vb)
+	verif.Observe("got", got)
+	if ka != kb {
+		// bytes (id 24) sorts before string (id 25)
+		want := 1
+		if ka == 1 {
+			want = -1
+		}
+		verif.Assert(vC06Sgn(got) == want, "string-vs-bytes-by-type")
+		verif.Reach("cross-type")
+		return
+	}
+	verif.Assert(vC06Sgn(got) == vC06Lex(a, b), "lexicographic")
+	verif.Reach("end")
+}
+
+// an array element: null or a small int64
+type vC06Elem struct {
+	null bool
+	v    int64
+}
+
+func vC06Array(name string, typ zed.Type) ([]vC06Elem, zed.Value) {
+	n := verif.Choose(name+".len", 3)
+	elems := make([]vC06Elem, n)
+	body := []byte{}
+	for i := range elems {
+		if verif.Bool(name + ".elem.null") {
+			elems[i].null = true
+			body = zcode.Append(body, nil)
+			continue
+		}
+		elems[i].v = int64(verif.Int8(name + ".elem"))
+		body = zcode.Append(body, zed.EncodeInt(elems[i].v))
+	}
+	return elems, zed.NewValue(typ, body)
+}
+
+// verif:desc C06-O3b compareValues on two arrays of int64 (container path: zcode iteration, byte-decoded elements, null elements): equals the lexicographic order over elements, a null element ordered by nullsMax, a proper prefix first.
+// verif:bounds two [int64] arrays of 0..2 elements, each element null or any value in -128..127 (ZNG-encoded, 0..2 bytes); nullsMax symbolic
+// verif:outside sets, records, maps, unions, nested containers, null arrays (covered as nulls by O1)
+func VerifH_C06_O3_arrays() {
+	nullsMax := verif.Bool("nullsMax")
+	typ := zed.NewTypeArray(zed.IDTypeComplex, zed.TypeInt64)
+	ea, va := vC06Array("a", typ)
+	eb, vb := vC06Array("b", typ)
+	got := compareValues(va, vb, nullsMax)
+	verif.Observe("got", got)
+	want := 0
+	for i := 0; want == 0 && i < len(ea) && i < len(eb); i++ {
+		x, y := ea[i], eb[i]
+		switch {
+		case x.null && y.null:
+		case x.null:
+			want = -1
+			if nullsMax {
+				want = 1
+			}
+		case y.null:
+			want = 1
+			if nullsMax {
+				want = -1
+			}
+		case x.v < y.v:
+			want = -1
+		case x.v > y.v:
+			want = 1
+		}
+	}
+	if want == 0 {
+		if len(ea) < len(eb) {
+			want = -1
+		} else if len(ea) > len(eb) {
+			want = 1
+		}
+	}
+	verif.Assert(vC06Sgn(got) == want, "array-lexicographic")
 	verif.Reach("end")
 }
